@@ -9,6 +9,7 @@ import (
 	"net/http"
 	"net/http/httptest"
 	"sort"
+	"strconv"
 	"strings"
 	"testing"
 
@@ -34,12 +35,19 @@ type wireBody struct {
 	Header  http.Header `json:"header"`
 	Body    []byte      `json:"body"`
 	Trailer http.Header `json:"trailer"`
+	// KnownLength: the body is announced with its exact Content-Length (unary
+	// Connect bodies from peers that do not stream them), otherwise the length
+	// is unknown to the receiver (-1), as with the library's own peers.
+	KnownLength bool `json:"known_length,omitempty"`
 }
 
 func (w wireBody) key() string {
 	dir := "resp"
 	if w.Request {
 		dir = "req"
+	}
+	if w.KnownLength {
+		dir += "+content-length"
 	}
 	return fmt.Sprintf("%s/%s/%s/%s(%dB)", w.Proto, w.Kind, dir, w.Name, len(w.Body))
 }
@@ -68,6 +76,9 @@ func captureCorpus(thorough bool) []wireBody {
 		{"client-a-z-b", KClient, CompNone, []int{3, 0, 4}, []int{3}, false, false},
 		{"client-none", KClient, CompNone, []int{}, []int{3}, false, false},
 		{"client-gzip", KClient, CompSendGzip, []int{40, 0}, []int{0}, false, false},
+		// payloads that a byte-at-a-time transport delivers in more than a thousand reads
+		{"kilobyte", KServer, CompNone, []int{3}, []int{1500, 3}, false, false},
+		{"client-kilobyte", KClient, CompNone, []int{1500, 3}, []int{3}, false, false},
 	}
 	if thorough {
 		scenarios = append(scenarios,
@@ -142,6 +153,13 @@ func captureCorpus(thorough bool) []wireBody {
 			}
 		}
 	}
+	// unary Connect bodies also as a peer with a known Content-Length sends them
+	for _, w := range append([]wireBody(nil), out...) {
+		if w.Proto == PConnect && w.Kind == KUnary && len(w.Body) > 0 {
+			w.KnownLength = true
+			out = append(out, w)
+		}
+	}
 	sort.SliceStable(out, func(i, j int) bool { return len(out[i].Body) < len(out[j].Body) })
 	return out
 }
@@ -193,7 +211,12 @@ func deliverLimited(w wireBody, sc memhttp.Script, dropTrailers bool, limit int)
 	var obs wireObs
 	cfg := Cfg{Proto: w.Proto, JSON: w.JSON, Comp: CompDefault, Kind: w.Kind, HTTP: 2}
 	if !w.Request {
-		tr := &memhttp.Transport{Handler: refwire.Handler(w.Status, w.Header, w.Body, w.Trailer), Proto: 2, SyncCloseReq: true}
+		hdr := w.Header
+		if w.KnownLength {
+			hdr = w.Header.Clone()
+			hdr.Set("Content-Length", strconv.Itoa(len(w.Body)))
+		}
+		tr := &memhttp.Transport{Handler: refwire.Handler(w.Status, hdr, w.Body, w.Trailer), Proto: 2, SyncCloseReq: true}
 		tr.WrapRespBody = func(rc io.ReadCloser) io.ReadCloser {
 			r := memhttp.NewScriptReader(rc, nil, sc)
 			if dropTrailers {
@@ -237,6 +260,10 @@ func deliverLimited(w wireBody, sc memhttp.Script, dropTrailers bool, limit int)
 	req.ProtoMajor, req.ProtoMinor, req.Proto = 2, 0, "HTTP/2.0"
 	req.Header = w.Header.Clone()
 	req.ContentLength = -1
+	if w.KnownLength {
+		req.ContentLength = int64(len(w.Body))
+		req.Header.Set("Content-Length", strconv.Itoa(len(w.Body)))
+	}
 	rec := httptest.NewRecorder()
 	obs.Guard = Guarded(func() { h.ServeHTTP(rec, req) })
 	obs.End = respCode(w.Proto, w.Kind, rec)
